@@ -220,6 +220,13 @@ func (p *PathConds) edgeLit(from, to *ssa.BasicBlock) string {
 			neg = !neg
 		}
 	}
+	// normalise "x <= y" into negated "y < x" (integers: exact complement)
+	if strings.HasPrefix(term, "(") && strings.HasSuffix(term, ")") {
+		if i := topLevelOp(term, " <= "); i > 0 {
+			term = "(" + term[i+4:len(term)-1] + " < " + term[1:i] + ")"
+			neg = !neg
+		}
+	}
 	pos := from.Succs[0] == to
 	if neg {
 		pos = !pos
